@@ -58,3 +58,60 @@ for sid, (prop, what, needs, flags, caught) in M.items():
     }
     json.dump(meta, open(os.path.join(d, 'meta.json'), 'w'), indent=1)
 print(len(M), 'meta files written')
+
+# ---- second round (fresh sub-agents told which first-round ideas to avoid) -------------------------------------
+M2 = {
+ 'C01C': ('C01', 'SubAssign<&BigUint> pops at most one zero top digit instead of normalising', 'needs a subtraction in which two or more top digits cancel (e.g. x - x for x >= 2^64)', '', ['C01', 'C10', 'C04'], ''),
+ 'C01D': ('C01', 'AddAssign<u128> for BigUint uses resize(2,0) which truncates a longer left operand', 'needs the u128 scalar form, scalar >= 2^64 and a BigUint wider than 128 bits', '', ['C01', 'C10'], 'MISSED by C01 at first (no scalar forms in its workload; C10 caught it): scalar + / - forms added to C01'),
+ 'C02C': ('C02', 'Toom-3 split drops the Ord::min bound on the middle limb of x', 'needs shorter operand > 256 digits and the longer between ~1.5x and 2x (300x500): slice panic', '', ['C02', 'C14'], ''),
+ 'C02D': ('C02', 'sub_sign normalises `a` with position instead of rposition', 'needs >= 2 Karatsuba levels and a zero digit exactly at index len/2-1 of a half that splits again: silently wrong product', '', ['C02'], ''),
+ 'C03C': ('C03', 'div_rem_ref two-digit fast path placed before the a<b pre-check', 'needs dividend of exactly two digits and divisor of >= 3 digits through the by-reference path', '', ['C03', 'C14'], ''),
+ 'C03D': ('C03', 'zero-divisor guard in div_rem_digit / rem_digit downgraded to debug_assert', 'needs release build and a zero divisor reaching the single-digit loops (x / 0u32, x % BigUint::zero() ...)', '--release', ['C03', 'C14'], ''),
+ 'C04C': ('C04', 'from_inexact_bitwise_digits_le: partial word pushed only when non-zero, no normalisation', 'needs radix 8/32/64/128 input with at least one full word of leading zero digits', '', ['C04', 'C06'], ''),
+ 'C04D': ('C04', 'BigInt %= u128/i128 wide branch forgets the NoSign reset', 'needs %= with a u128/i128 operand above u64::MAX and a left operand that is an exact non-zero multiple: (Plus|Minus, 0)', '', ['C04', 'C10'], 'MISSED by C04 at first: history route "scalar_zero" (x *= s; x %= s for every scalar width) and exact-multiple scalar forms in C10 added'),
+ 'C05C': ('C05', 'monty_modpow merges reduce/pad into if-else: reduced base no longer padded', 'needs odd modulus, base with more digits than the modulus whose residue has fewer digits: assert -> SIGABRT', '', ['C05', 'C14'], ''),
+ 'C05D': ('C05', 'removes the zero-result guard of BigInt::modinv (reverts fix F3)', 'needs modulus +-1 with a sign pattern going through modulus - result', '', ['C05'], ''),
+ 'C06C': ('C06', 'to_radix_digits_le big-base loop breaks when the super-chunk remainder becomes zero', 'needs non-power-of-two radix, value >= 64 digits and a super-chunk whose top >= power digits are zero (10^5000+1): output too short', '', ['C06'], 'MISSED at first: "sparse_big" values (radix^k + small, a*radix^k + b*radix^j + c, well above 64 digits) added for every radix'),
+ 'C06D': ('C06', 'leading-underscore check runs before the optional + is stripped', 'needs input of the shape "+_<digits>"', '', ['C06'], ''),
+ 'C07C': ('C07', 'set_negative_bit top mask rewritten as (1 << (tz%64+1)) - 1', 'needs negative value with trailing_zeros % 64 == 63 and set_bit(bit < tz, true): overflow panic in debug, wrong value in release', '', ['C07', 'C14'], ''),
+ 'C07D': ('C07', 'biguint_shl returns early for zero before the negative-shift check', 'needs value 0 and a negative shift amount', '', ['C07', 'C14'], ''),
+ 'C08C': ('C08', 'to_f32/to_f64 scale by bumping the IEEE exponent field', 'needs magnitude in [2^1024, 2^1088) (f64) / [2^128, 2^192) (f32) whose leading bits are not 100..0: NaN instead of inf', '', ['C08'], ''),
+ 'C08D': ('C08', 'from_f64 fast path through u128 for n <= u128::MAX as f64', 'needs exactly 2^128 as f64: saturating cast gives 2^128-1', '', ['C08'], ''),
+ 'C09C': ('C09', 'U32Digits::nth override flips the half flag for odd n without advancing', 'needs an odd number of next() calls followed by nth(k) with odd k', '', ['C09'], ''),
+ 'C09D': ('C09', 'from_signed_bytes negates in digit space and pops only one zero top digit', 'needs negative input whose 0xff padding spans two or more whole native digits', '', ['C09', 'C04'], ''),
+ 'C10C': ('C10', 'bitor_pos_neg extends with raw high digits of b', 'needs positive operand by value shorter than the negative one whose overlapping low digits are all zero (5 | -(2^64))', '', ['C10', 'C07'], ''),
+ 'C10D': ('C10', 'owning div_rem tests the zero dividend before the zero divisor', 'needs 0 / 0 through a form using the owning div_rem (val/val, u64/usize/u128 scalars)', '', ['C10', 'C14'], ''),
+ 'C11C': ('C11', 'u64 fast path of sqrt uses f64 sqrt + one-step correction that overflows', 'needs u64-sized x >= (2^32-1)^2, std only: panic in debug, wrong value in release', '', ['C11'], ''),
+ 'C11D': ('C11', 'nth_root shortcut "bits*1000 <= n*1585 => 2"', 'needs degree n >= 200 (200, 253, 306, 400 ...) and x in [3^n, 2^floor(1.585 n))', '', ['C11'], 'MISSED at first: r^n, r^n +- 1 for small bases r = 2..12 at every degree up to 1200 (+ huge degrees) added'),
+ 'C12C': ('C12', '&BigUint pow fast path truncates the exponent with `as u32`', 'needs base 0 by reference and a u64/usize/u128 exponent that is a non-zero multiple of 2^32: 0^e = 1', '', ['C12'], 'MISSED at first: wide exponents with zero low 32/64 bits added for bases 0, +-1'),
+ 'C12D': ('C12', 'fail-fast "memory overflow" guard on bits*exp', 'needs base +-1 and a u128 exponent above u64::MAX: spurious panic', '', ['C12', 'C14'], ''),
+ 'C13C': ('C13', 'BigInt::extended_gcd override with an i64 fast path', 'needs an operand exactly i64::MIN paired with -1, 0 or i64::MIN: overflow panic / negative gcd', '', ['C13'], 'MISSED at first: primitive-boundary operand family (+-2^k, 2^k +- 1 for k = 7..128) added'),
+ 'C13D': ('C13', 'next_multiple_of shortcut returns `other` when |self| < |other|', 'needs 0 < |self| < |other| with opposite signs', '', ['C13'], ''),
+ 'C14C': ('C14', 'same mask rewrite as C07C (written independently)', 'see C07C', '', ['C14', 'C07'], ''),
+ 'C14D': ('C14', 'same reorder as C07D (written independently)', 'see C07D', '', ['C14', 'C07'], ''),
+ 'C15C': ('C15', 'x86_64 add loop prefetches b one iteration ahead: reads b[5*floor(len/5)] (value discarded)', 'needs b.len() >= 5, b.len() % 5 == 0 and b ending exactly at the end of its allocation: 8-byte over-READ, results unchanged', '', ['C15'], 'value oracles (C01, C14, C03) stay silent as they should; only the guard-page allocator / valgrind see it'),
+ 'C15D': ('C15', 'BigUint % u64 hand-written loop reaches hardware div without a zero check', 'needs % with a zero u64/usize divisor: SIGFPE in release, wrong panic in debug, 0 % 0 = 0', '', ['C15', 'C14', 'C03'], ''),
+ 'C16C': ('C16', 'import tidy-up makes quickcheck + arbitrary together ambiguous (E0034)', 'needs both features enabled', '--features quickcheck,arbitrary', ['C16'], 'other checks report INCONCLUSIVE (all-features driver does not build), not a violation'),
+ 'C16D': ('C16', 'from_f64 truncation compiled only with std', 'needs a no_std build and a float in (-1, 0): None instead of Some(0)', '--no-default-features', ['C16'], ''),
+ 'C17C': ('C17', 'U32Visitor skips normalisation when the size hint was exact', 'needs exact size hint and a sequence whose top 64-bit digit is zero', '--features serde', ['C17', 'C04'], ''),
+ 'C17D': ('C17', 'Sign deserialize matches on sign.signum()', 'needs an invalid sign byte (other than -1, 0, 1): accepted', '--features serde', ['C17'], ''),
+ 'C18C': ('C18', 'UniformBigInt::new asserts only that the difference is non-zero', 'needs Uniform::new with low > high: no panic, samples outside', '--features rand', ['C18'], 'MISSED at first: inverted ranges for new / gen_range (exclusive) were not in the workload (only empty and inclusive-inverted): added'),
+ 'C18D': ('C18', 'RandomBits -> BigInt picks the sign itself instead of calling gen_bigint', 'needs zero magnitude draw followed by a "re-draw" coin (tiny bit sizes)', '--features rand', ['C18'], ''),
+ 'C19C': ('C19', 'BigInt::set_one skips the work when the magnitude is already one', 'needs set_one on exactly -1', '', ['C19'], ''),
+ 'C19D': ('C19', 'trait ToBigUint for BigInt returns None for zero', 'needs zero through the trait (not the inherent method)', '', ['C19'], ''),
+ 'C20C': ('C20', 'Karatsuba recomputes p2 (4 recursive products)', 'visible at the doublings 1024->2048 and 8192->16384 and n x (2n-1) for n <= 256', 'RUSTFLAGS="--cfg num_bigint_verif"', ['C20'], 'C02 stays silent (products correct)'),
+ 'C20D': ('C20', 'squaring shortcut for &a * &a on the same object at every size', 'needs both operands to be the same object and >= 512 digits', 'RUSTFLAGS="--cfg num_bigint_verif"', ['C20'], 'would have been MISSED (the check multiplied two distinct operands): same-object squares (`worksq`) added before it was run'),
+}
+for sid, (prop, what, needs, flags, caught, note) in M2.items():
+    d = os.path.join(V, 'seeded', sid)
+    if not os.path.isdir(d):
+        continue
+    meta = {
+        'id': sid, 'round': 2, 'breaks_property': prop, 'change': what, 'needs_to_manifest': needs,
+        'origin': 'fresh second-round sub-agent given the property text, its own scratch worktree and a list of first-round ideas to avoid (nothing from /verif)',
+        'confirmed_by_me': {'how': 'tools/confirm_seed.sh %s %s' % (sid, flags), 'result': 'clean_demo=PASS suite_with_patch=PASS demo_with_patch=FAIL'},
+        'demo_flags': flags, 'detected_by_quick_checks': caught, 'note': note,
+        'how_run_against_checks': 'tools/trymut.sh %s seeded/%s/patch.diff quick %s' % (sid, sid, ' '.join(caught)),
+    }
+    json.dump(meta, open(os.path.join(d, 'meta.json'), 'w'), indent=1)
+print(len(M2), 'round-2 meta files written')
